@@ -615,6 +615,16 @@ func (w *worker) reset(needSleeper bool) error {
 			return err
 		}
 	}
+	// symbolic links for the path spellings: certs -> foreign/sub (so that certs/../Hookaidofile is the foreign file for
+	// the kernel and the configured file for path.Clean), a link to the foreign file and one to the configured file
+	if err := os.MkdirAll(filepath.Join(w.dir, "foreign", "sub"), 0o755); err != nil {
+		return err
+	}
+	for link, target := range map[string]string{"certs": filepath.Join("foreign", "sub"), "foreign-link": w.foreign, "own-link": w.cfgPath} {
+		if err := os.Symlink(target, filepath.Join(w.dir, link)); err != nil {
+			return err
+		}
+	}
 	if needSleeper {
 		if w.sl == nil || w.sl.dead {
 			s, err := startSleeper(w.fx.exe)
@@ -642,6 +652,11 @@ func (w *worker) snapshot() (map[string]string, error) {
 			return err
 		}
 		rel, _ := filepath.Rel(w.dir, p)
+		if info.Mode()&os.ModeSymlink != 0 { // Walk does not follow links; what a link points to is listed under its own path
+			t, _ := os.Readlink(p)
+			out[rel] = "symlink:" + t
+			return nil
+		}
 		if info.IsDir() {
 			if rel != "." {
 				out[rel+"/"] = "dir"
